@@ -84,6 +84,12 @@ def validate(module, trace, work, name, prop, heap='3g', timeout=3600):
     return dict(bads=bads, drifts=drifts, done=done, stat=stat or [0, 0], wall=wall)
 
 
+def exe_path(variant, name):
+    """Executable built from /repo's working tree; VERIF_EXE_<variant>_<name> substitutes another binary (used only by the
+    mutation self-test described in docs/vecread.md, which builds mutated sources outside /repo and /verif)."""
+    return os.environ.get('VERIF_EXE_%s_%s' % (variant, name)) or vlib.exe(variant, name)
+
+
 def match_known(prop, sig, known):
     for k in known:
         if k.get('status') != 'open' or k.get('property') != prop:
@@ -231,8 +237,9 @@ def run_c19(tier, seed, replay=None):
     work = os.path.join(vlib.RUN, 'C19-%s-%d' % (tier, os.getpid()))
     shutil.rmtree(work, ignore_errors=True)
     os.makedirs(work)
-    vlib.build('plain', ['vec_exec'])
-    binary = vlib.exe('plain', 'vec_exec')
+    if not os.environ.get('VERIF_EXE_plain_vec_exec'):
+        vlib.build('plain', ['vec_exec'])
+    binary = exe_path('plain', 'vec_exec')
     known = vlib.load_known()
     gens, results = [], []
     if replay:
@@ -243,6 +250,8 @@ def run_c19(tier, seed, replay=None):
         gens.append(dict(name='replay', cases=n, shards=[(sp, n)], wall=0, states=n, sample=None))
     else:
         cfs = c19_configs(tier, seed)
+        if os.environ.get('VERIF_C19_CONFIGS'):          # self-test knob: a subset of the generation configs
+            cfs = [c for c in cfs if c[0] in os.environ['VERIF_C19_CONFIGS'].split(',')]
         with ThreadPoolExecutor(max_workers=max(1, JOBS // 2)) as ex:
             gens = list(ex.map(lambda x: c19_generate(x[0], x[1], work), cfs))
         for g in gens:
@@ -297,7 +306,7 @@ def run_c19(tier, seed, replay=None):
                traces_validated_against_impl=ncases, known_findings_seen=nknown,
                tolerance='float 2^-21 absolute, double 2^-40 absolute on non-representable rationals; square roots and unit '
                          'vectors through squared identities at 2^-21 .. 2^-18 relative; everything representable exactly')
-    vlib.write_evidence('C19', tier, seed, 'exploration', cov, time.time() - t0, nviol,
+    (vlib.write_evidence if not os.environ.get('VERIF_SELFTEST') else (lambda *a: None))('C19', tier, seed, 'exploration', cov, time.time() - t0, nviol,
                         ['TLC and the CommunityModules JSON bridge are trusted',
                          'the executor\'s radix conversion of float/double results (harness/vec_exec.cc: put(double)) is trusted',
                          'NaN, infinities, subnormals, signed zeros and rounding accuracy on arbitrary reals are NOT covered: TLA+ has no floating point',
@@ -351,7 +360,7 @@ def c20_exec(variant, sp, work):
     t0 = time.time()
     with open(trace, 'w') as fo, open(err, 'w') as fe:
         try:
-            r = subprocess.run([vlib.exe(variant, 'readers_exec'), sp], stdout=fo, stderr=fe, timeout=1800, env=e)
+            r = subprocess.run([exe_path(variant, 'readers_exec'), sp], stdout=fo, stderr=fe, timeout=1800, env=e)
         except subprocess.TimeoutExpired:
             raise MachineryError('readers_exec (%s) timeout on %s' % (variant, sp))
     etxt = open(err).read()
@@ -410,7 +419,7 @@ def run_c20(tier, seed, replay=None):
     shutil.rmtree(work, ignore_errors=True)
     os.makedirs(work)
     with ThreadPoolExecutor(max_workers=2) as ex:
-        list(ex.map(lambda v: vlib.build(v, ['readers_exec']), ['plain', 'tsan']))
+        list(ex.map(lambda v: vlib.build(v, ['readers_exec']), [v for v in ('plain', 'tsan') if not os.environ.get('VERIF_EXE_%s_readers_exec' % v)]))
     known = vlib.load_known()
     mc_results, scripts, gen_info = [], [], {}
     with ThreadPoolExecutor(max_workers=3) as mcpool:
@@ -426,7 +435,7 @@ def run_c20(tier, seed, replay=None):
                 for m in MESHES[tier]:
                     dp = os.path.join(work, 'describe.txt')
                     open(dp, 'w').write('M %s\n' % m)
-                    r = subprocess.run([vlib.exe('plain', 'readers_exec'), dp], stdout=subprocess.PIPE, stderr=subprocess.PIPE, text=True, timeout=300)
+                    r = subprocess.run([exe_path('plain', 'readers_exec'), dp], stdout=subprocess.PIPE, stderr=subprocess.PIPE, text=True, timeout=300)
                     if r.returncode != 0:
                         raise MachineryError('readers_exec cannot build mesh %s: %s' % (m, r.stderr[-1000:]))
                     fo.write(r.stdout.splitlines()[0] + '\n')
@@ -522,7 +531,7 @@ def run_c20(tier, seed, replay=None):
                model_checking=mc_results, states=sum(m['states'] for m in mc_results if m['hazard'] == 'none'),
                transitions=sum(m['transitions'] for m in mc_results if m['hazard'] == 'none'),
                traces_validated_against_impl=nruns, drift_answers=ndrift, drift_ops=drift_ops, known_findings_seen=nknown)
-    vlib.write_evidence('C20', tier, seed, 'exploration', cov, time.time() - t0, len(seen),
+    (vlib.write_evidence if not os.environ.get('VERIF_SELFTEST') else (lambda *a: None))('C20', tier, seed, 'exploration', cov, time.time() - t0, len(seen),
                         ['data-race freedom is OBSERVED by ThreadSanitizer (gcc libtsan) while the generated programs run; it is not derived from the specification',
                          'TLC and the CommunityModules JSON bridge are trusted; the executor\'s projection (harness/ovm_state.hh dump_state + positions + reader properties) is trusted',
                          'the interleavings that actually occur are chosen by the OS scheduler; TLC explores all interleavings of the MODEL only',
